@@ -135,7 +135,7 @@ theorem cut_then_consolidate_inv {f : Forest} (hi : f.Inv) {node : Nat} {path l 
     unfold allHandles
     rw [lc.eq]
     refine List.Perm.trans ?_ (handlesList_plug_perm path _).symm
-    simp only [handlesList_append, handlesList_cons, List.append_assoc]
+    simp only [fi_handlesList_append, handlesList_cons, List.append_assoc]
     have a1 : (handlesList (plug path ks') ++ (handlesList E ++ (Y ++ X))).Perm
         (pathHandles path ++ (handlesList ks' ++ Y) ++ (handlesList E ++ X)) := by
       refine ((handlesList_plug_perm path ks').append_right _).trans ?_
@@ -222,8 +222,8 @@ theorem cut_then_consolidate_inv {f : Forest} (hi : f.Inv) {node : Nat} {path l 
         rw [← hplug]
         apply hi.with_roots _ ([N.handle] ++ X)
         · apply perm1
-          simp only [handlesList_append, handlesList_cons, handles_setValue, List.nil_append,
-            handlesList_nil, List.append_nil, handles_eq N, hNkids, List.append_assoc]
+          simp only [fi_handlesList_append, handlesList_cons, handles_setValue, List.nil_append,
+            handlesList_nil, List.append_nil, fi_handles_eq N, hNkids, List.append_assoc]
           refine List.Perm.append_left _ (List.Perm.append_left _ ?_)
           exact List.perm_append_comm
         · rw [validList_append, Bool.and_eq_true]
